@@ -889,7 +889,8 @@ func (a AssignInstr) assign(env *Zlisp, lhs, rhs Sexp) error {
 			for i := range x.Val {
 				switch sym := x.Val[i].(type) {
 				case *SexpSymbol:
-					err := env.LexicalBindSymbol(sym, rhsArray.Val[i])
+					// a dot path among the targets is assigned like a single one
+					err := a.assignSymbol(env, sym, rhsArray.Val[i])
 					if err != nil {
 						return err
 					}
@@ -905,6 +906,13 @@ func (a AssignInstr) assign(env *Zlisp, lhs, rhs Sexp) error {
 		}
 	}
 	return fmt.Errorf("AssignInstr: don't know how to assign to lhs %T", lhs)
+}
+
+func (a AssignInstr) assignSymbol(env *Zlisp, sym *SexpSymbol, rhs Sexp) error {
+	if sym.isDot {
+		return sym.AssignToSelection(env, rhs)
+	}
+	return env.LexicalBindSymbol(sym, rhs)
 }
 
 // PopScopeTransferToDataStackInstr is used to wrap up a package
